@@ -249,7 +249,7 @@ func genMCase(r *Rng, w *CaseWriter, k int) {
 		if n == m && m == q && alias() {
 			c.A, aliased = c.R, true
 		}
-		if n == m && m == q && alias() && c.A != c.R { // r = a = b: see the report (C03's closed form differs from Go there)
+		if n == m && m == q && alias() { // r = b, also with a = r (r = a = b: column buffers computed from overwritten columns, F-MDOTM-RR)
 			c.B, aliased = c.R, true
 		}
 		if c.A < 0 {
